@@ -1,11 +1,12 @@
 # Build/verify the framework from files on disk only (offline).
-SPECS := CkptActions Executor SchedAPI TraceExec TraceClient TraceDomain TraceSibling TraceTwoLevel TraceMultistage TracePeriodic ExecOpt OptTables GWForm CostOrder Client Process Domain DomainGen ActionUniverse ActionPairs ActionPairsGen PlanTable
+SPECS := CkptActions Executor SchedAPI TraceExec TraceClient TraceDomain TraceSibling TraceTwoLevel TraceMultistage TracePeriodic ExecFree ExecOpt OptTables GWForm CostOrder Client Process Domain DomainGen ActionUniverse ActionPairs ActionPairsGen PlanTable
 PY := /venv/bin/python
 
 .PHONY: setup sany manifest selftest clean
 
 setup: sany
 	@mkdir -p out evidence
+	@$(PY) -m selftest.run | tail -1
 	@echo "setup ok"
 
 sany:
